@@ -25,7 +25,7 @@ ENCODED = [registries.match, registries.prematch, registries._matches_labels, re
            registries._matches_filter_callback, registries._deduplicated, registries.ChangingRegistry.iter_handlers,
            processing.process_resource_causes]
 META = {
-    'bounds': 'one handler declaration over the alphabet: labels/annotations criterion in {none,"x",PRESENT,ABSENT,callback==x,'
+    'bounds': 'duplicate registration also with another handler registered in between (dup = 3). one handler declaration over the alphabet: labels/annotations criterion in {none,"x",PRESENT,ABSENT,callback==x,'
               'callback is-None}; field in {none, spec.f}; value/old/new in {none,"x",PRESENT,ABSENT,callback==x}; when in '
               '{none,true,false}; decorator in {create, update, field, delete, resume}; object label/annotation in {absent,"x","y"}; '
               'old/new field value in {absent,"x","y"}; unrelated change yes/no; duplicate registration same/different id; optionally a second label/annotation criterion of the same filter.',
